@@ -234,7 +234,7 @@ func cmdCheck(args []string) int {
 		root = *scratch
 	}
 	_ = croot
-	exp := *prop == "C18"
+	exp := *prop == "C18" || *prop == "C03" // the exp module (zapslog, zapfield) is loaded for these; it pulls in zap and zapcore as dependencies
 	violations := 0
 	var vioLines []string
 	replayDir := filepath.Join(root, "out", "replay", *prop)
